@@ -4,7 +4,7 @@
 // char::is_uppercase / is_lowercase / to_lowercase with their real Unicode tables.
 // Oracle: std's per-character full lowercase mapping applied to every character independently
 // (unconditional, untailored, context-free -- str::to_lowercase's final-sigma rule is NOT in it).
-use crate::sup::*;
+use super::sup::*;
 use precis_core::profile::Rules;
 use precis_profiles::{Nickname, UsernameCaseMapped};
 
@@ -101,18 +101,18 @@ pub fn nick_one<S: Src>(s: &mut S) {
 
 /// Layer B: up to N characters drawn from the witness alphabet, std case tables stubbed by the model.
 pub fn case_sigma<const N: usize, const B: usize, const M: usize, S: Src>(s: &mut S) {
-    let x = SymStr::<N>::from_alphabet(s, &crate::oracle::SIGMA_CASE);
+    let x = SymStr::<N>::from_alphabet(s, &super::oracle::SIGMA_CASE);
     case_map_on::<N, B, M, S>(s, x)
 }
 
 /// The model used by Layer B equals the real std functions on every witness (concrete characters).
 pub fn model_valid<S: Src>(s: &mut S) {
-    let k = s.below(crate::oracle::SIGMA_CASE.len());
-    let c = crate::oracle::SIGMA_CASE[k];
+    let k = s.below(super::oracle::SIGMA_CASE.len());
+    let c = super::oracle::SIGMA_CASE[k];
     let mut it = c.to_lowercase();
     let got = [it.next().unwrap_or('\0'), it.next().unwrap_or('\0'), it.next().unwrap_or('\0')];
-    let exp = crate::oracle::case_to_lower(c);
+    let exp = super::oracle::case_to_lower(c);
     pv_check!(s, exp == Some(got), "PV: case model == char::to_lowercase on the witness");
-    pv_check!(s, crate::oracle::case_is_lowercase(c) == Some(c.is_lowercase()), "PV: case model == char::is_lowercase on the witness");
+    pv_check!(s, super::oracle::case_is_lowercase(c) == Some(c.is_lowercase()), "PV: case model == char::is_lowercase on the witness");
     pv_cover!(s, got[1] != '\0', "COVER: multi-character lowercase mapping");
 }
